@@ -1,6 +1,201 @@
-import Log4rsModel.Rolling.Model
-namespace Log4rs.Rolling
+import Log4rsModel.Rolling.LemmasNoLoss
+import Log4rsModel.Rolling.LemmasWindow
+import Log4rsModel.Rolling.LemmasLock
+/-
+C05 — Rolling appender never loses, duplicates, reorders or splits records.
+Model: `Rolling/Model.lean` (the appender state machine, any trigger as an abstract
+`Trigger σ`, any roller as a `RollFn`), `Roller/Model.lean` (shared delete / fixed-window models).
+The no-loss argument is parametric in the roller through `RollContract`, which is then proved for
+the delete roller and for the fixed-window model (any base, count, initial window with gaps,
+compression with `decode ∘ codec = id`, and every place where the fault oracle stops a rotation).
 
-theorem C05_placeholder : True := trivial
+Mutex: the sequential theorems describe one append at a time; `C05_schedule_serial_rolling` lifts
+them to concurrent writers under the assumption that the guard spans the whole append, as in the
+code. A narrowed guard is caught only by the harness's concurrent exploration with the amplifier.
+-/
+namespace Log4rs.Rolling
+open Log4rs.Roller
+
+variable {σ : Type}
+
+/-- retained files oldest → newest, the active file last -/
+def retained (cfg : Cfg σ) (arch : Disk → List Bytes) (d : Disk) : List Bytes := arch d ++ [fileOf cfg d]
+
+/-- the invariant holds when the first appender is built on any disk -/
+theorem C05_inv_init (cfg : Cfg σ) (arch : Disk → List Bytes) (hc : RollContract cfg.roll cfg.path arch)
+    (d : Disk) (t0 : σ) (now : Nat) : Inv cfg arch (init cfg d t0 now) (Ghost.init cfg arch d) :=
+  Inv.atInit cfg arch hc.frame d t0 now
+
+/-- every operation — append of any record with any trigger answer and any roller outcome
+(success, or failure at any step), restart, clock tick — preserves the invariant. In truncate mode
+the roller must not fail (otherwise the next reopen truncates acknowledged data: see
+`C05_truncate_reopen_after_failed_roll_loses`). -/
+theorem C05_inv_step (cfg : Cfg σ) (arch : Disk → List Bytes) (hc : RollContract cfg.roll cfg.path arch)
+    (hmode : cfg.appendMode = true ∨ NoFail cfg.roll cfg.path) (s : St σ) (g : Ghost) (inv : Inv cfg arch s g) (op : Op) :
+    Inv cfg arch (applyOp cfg s op).2 (ghostStep cfg g op (applyOp cfg s op).1) :=
+  inv.step hc hmode op
+
+/-- restart in append mode keeps everything; in truncate mode it discards the active segment — at
+open, and only that: the archives are untouched and the file is empty -/
+theorem C05_restart (cfg : Cfg σ) (arch : Disk → List Bytes) (hc : RollContract cfg.roll cfg.path arch)
+    (s : St σ) (hwf : WF cfg s) :
+    arch (restart cfg s).disk = arch s.disk ∧
+    fileOf cfg (restart cfg s).disk = (if cfg.appendMode then fileOf cfg s.disk else []) := by
+  obtain ⟨ho, hse⟩ := restart_spec cfg s hwf
+  exact ⟨hc.frame _ _ hse, fileOf_opened ho⟩
+
+/-- Main theorem. After any history (appends of any records with any fault, restarts, clock
+ticks; any trigger; any roller satisfying the contract; append mode, or truncate mode with a
+roller that does not fail), the files on disk — retained archives oldest to newest, then the active
+file — are exactly a suffix, by whole files, of the segmented stream: nothing missing from the
+middle, nothing duplicated, nothing reordered, no record split across files. -/
+theorem C05_no_loss_no_dup_order (cfg : Cfg σ) (arch : Disk → List Bytes)
+    (hc : RollContract cfg.roll cfg.path arch) (hmode : cfg.appendMode = true ∨ NoFail cfg.roll cfg.path)
+    (d : Disk) (t0 : σ) (now : Nat) (ops : List Op) :
+    let res := grun cfg (init cfg d t0 now) (Ghost.init cfg arch d) ops
+    ∃ k, k ≤ res.2.2.closed.length ∧
+      retained cfg arch res.2.1.disk = ((res.2.2.closed ++ [res.2.2.cur]).drop k).map List.flatten := by
+  intro res
+  have inv : Inv cfg arch res.2.1 res.2.2 := (C05_inv_init cfg arch hc d t0 now).history hc hmode ops
+  obtain ⟨k, hk⟩ := inv.archives
+  refine ⟨min k res.2.2.closed.length, Nat.min_le_right _ _, ?_⟩
+  have hdrop : res.2.2.closed.drop k = res.2.2.closed.drop (min k res.2.2.closed.length) := by
+    by_cases h : k ≤ res.2.2.closed.length
+    · rw [Nat.min_eq_left h]
+    · rw [Nat.min_eq_right (by omega), List.drop_eq_nil_of_le (by omega), List.drop_length]
+  simp only [retained]
+  rw [hk, inv.active, hdrop, List.drop_append_of_le_length (Nat.min_le_right _ _)]
+  simp
+
+/-- … and that segmented stream is the stream of written items: the pre-existing contents followed
+by exactly the records whose bytes reached the file, in call order, each once. The acknowledged
+records (append returned `Ok`) are a subsequence of it; the extras are whole records of appends that
+returned `Err` after their write (post-process policy failure). -/
+theorem C05_stream_is_written (cfg : Cfg σ) (arch : Disk → List Bytes) (d : Disk) (t0 : σ) (now : Nat) (ops : List Op)
+    (hnr : cfg.appendMode = true ∨ ∀ op ∈ ops, op.isRestart = false) :
+    let res := grun cfg (init cfg d t0 now) (Ghost.init cfg arch d) ops
+    res.2.2.stream = (Ghost.init cfg arch d).stream ++ writtenItems cfg.trig.pre ops res.1 ∧
+    (ackedItems ops res.1).Sublist (writtenItems cfg.trig.pre ops res.1) ∧
+    (res.1, res.2.1) = run cfg (init cfg d t0 now) ops := by
+  intro res
+  exact ⟨grun_stream cfg ops _ _ hnr, acked_sublist_written _ _ _, grun_fst_snd cfg _ _ ops⟩
+
+/-- the pre-existing part of the stream: the archives found on disk (oldest first) and, in append
+mode, the content of the log file -/
+theorem C05_initial_stream (cfg : Cfg σ) (arch : Disk → List Bytes) (d : Disk) :
+    (Ghost.init cfg arch d).stream = arch d ++ (if cfg.appendMode then [fileOf cfg d] else []) := by
+  simp only [Ghost.stream, Ghost.init, List.flatten_append, List.flatten_cons, List.flatten_nil, List.append_nil]
+  congr 1
+  · induction arch d with
+    | nil => rfl
+    | cons a t ih => simp [ih]
+
+/-- In pre-process mode a record is written iff its append returned `Ok`: written = acknowledged. -/
+theorem C05_pre_wrote_iff_ok (cfg : Cfg σ) (s : St σ) (r : Rec) (fault : Nat → Bool) (hwf : WF cfg s)
+    (hpre : cfg.trig.pre = true) :
+    wrote true (append cfg s r fault).1 = true ↔ (append cfg s r fault).1.res = .ok := by
+  obtain ⟨_, _, _, hno, herr, hyes⟩ := append_pre_spec cfg s r fault hwf hpre _ _
+    (append cfg s r fault).1 (append cfg s r fault).2 rfl rfl rfl
+  cases hans : (cfg.trig.fire s.tst (openView cfg s).length s.now).1 with
+  | no => obtain ⟨hr, hro, _⟩ := hno hans; simp [wrote, hr, hro]
+  | err => obtain ⟨hr, hro, _⟩ := herr hans; simp [wrote, hr, hro]
+  | yes =>
+    obtain ⟨d1, _, _, h⟩ := hyes hans
+    rcases h with ⟨_, _, hr, hro, _⟩ | ⟨_, _, hr, hro, _⟩ <;> simp [wrote, hr, hro]
+
+/-- the delete roller satisfies the contract (it retains nothing) -/
+theorem C05_contract_delete (path : Path) : RollContract (fun p f d => deleteRoll p f d) path (fun _ => []) :=
+  rollContract_delete path
+
+/-- the fixed-window model satisfies the contract, for every base and count, every initial window
+(gaps, pre-existing archives), plain or compressed, and wherever a fault stops the rotation —
+provided slot names are pairwise distinct inside the window and differ from the log file (C07's
+`name_injective`), and the codec round-trips -/
+theorem C05_contract_fixed_window (r : RollerCfg) (path : Path) (decode : Bytes → Bytes)
+    (hdec : ∀ x, decode (r.codec x) = x)
+    (hinj : ∀ i j, i < r.count → j < r.count → r.nameOf (r.base + i) = r.nameOf (r.base + j) → i = j)
+    (hfile : ∀ j, j < r.count → r.nameOf (r.base + j) ≠ path) :
+    RollContract (fixedWindowRoll r) path (fwArch r decode) :=
+  rollContract_fixedWindow r path decode hdec hinj hfile
+
+/-- the reading used for the fixed-window roller is the executable `Spec.readBack` the driver
+evaluates on real directories (plain files; for compressed patterns the harness decompresses) -/
+theorem C05_readBack_is_spec (cfg : Cfg σ) (r : RollerCfg) (d : Disk) :
+    (retained cfg (fwArch r id) d).flatten = Spec.readBack r.nameOf r.base r.count cfg.path d.get? := by
+  have : fwArch r id d = Spec.archives r.nameOf r.base r.count d.get? := by
+    simp only [fwArch, ← winOf_eq_archives]
+    cases r.comp <;> simp
+  simp [retained, Spec.readBack, Spec.diskFiles, this, fileOf]
+
+/-- Concurrent writers: every state the lock machine can reach is the sequential execution of the
+committed appends in commit order, the commit order being a merge of the threads' completed
+appends — so all sequential theorems above apply to it. -/
+theorem C05_schedule_serial_rolling (cfg : Cfg σ) (s0 : St σ) (progs : List (List Rec)) (sched : List Nat) :
+    let body : Rec → (List (Option Out) × St σ) → (List (Option Out) × St σ) :=
+      fun r acc => (acc.1 ++ [some (append cfg acc.2 r (fun _ => false)).1], (append cfg acc.2 r (fun _ => false)).2)
+    let st := lrun body (LState.init ([], s0) progs) sched
+    st.shared = run cfg s0 ((st.log.map (·.2)).map (fun r => Op.append r none)) ∧
+    (∀ i t, st.threads[i]? = some t → (st.log.filter (fun e => e.1 == i)).map (·.2) = t.done ∧
+        ∃ p, progs[i]? = some p ∧ t.done <+: p) := by
+  intro body st
+  have inv : LInv body ([], s0) progs st := (LInv.init body _ progs).run sched
+  have hseq : ∀ (rs : List Rec) (acc : List (Option Out) × St σ),
+      rs.foldl (fun acc r => body r acc) acc =
+        (acc.1 ++ (run cfg acc.2 (rs.map (fun r => Op.append r none))).1,
+         (run cfg acc.2 (rs.map (fun r => Op.append r none))).2) := by
+    intro rs
+    induction rs with
+    | nil => intro acc; simp [run]
+    | cons r rs ih =>
+      intro acc
+      simp only [List.foldl_cons, List.map_cons, run, applyOp]
+      rw [ih]
+      have hf : faultFn none = fun _ => false := by funext k; simp [faultFn]
+      simp [body, hf]
+  refine ⟨?_, ?_⟩
+  · rw [inv.shared, hseq]
+    simp
+  · intro i t ht
+    obtain ⟨hl, p, hp1, hp2⟩ := inv.threads i t ht
+    exact ⟨hl, p, hp1, ⟨t.todo, hp2⟩⟩
+
+/-! ### the truncate-mode gap (F10), kept visible
+
+The statement without the mode hypothesis is false of the code: in truncate mode, after a roll
+that failed, the next append reopens the still existing file with `truncate(true)` and destroys
+acknowledged records. -/
+
+private def wPath : Path := ['a']
+private def wRoller : RollerCfg := { nameOf := fun i => 'b' :: List.replicate i 'x', base := 0, count := 1 }
+private def wCfg : Cfg (List TrigAns) :=
+  { path := wPath, appendMode := false, trig := scriptedTrigger false, roll := fixedWindowRoll wRoller }
+
+/-- witness: `[1]` is acknowledged, the roll requested after `[2]` fails at its only step, the next
+append truncates: afterwards neither the active file nor the archive holds `[1]` -/
+theorem C05_truncate_reopen_after_failed_roll_loses :
+    let res := run wCfg (init wCfg Disk.empty [.no, .yes, .no] 0)
+      [.append [[1]] none, .append [[2]] (some 0), .append [[3]] none]
+    res.1.map (fun o => o.map (·.res)) = [some .ok, some .errRoll, some .ok] ∧
+    res.2.disk.get? wPath = some [3] ∧ res.2.disk.get? (wRoller.nameOf 0) = none := by
+  decide +kernel
+
+/-- the full statement (no restriction on the mode) … -/
+def C05_no_loss_any_mode_statement : Prop :=
+  ∀ (cfg : Cfg (List TrigAns)) (arch : Disk → List Bytes), RollContract cfg.roll cfg.path arch →
+    ∀ (d : Disk) (t0 : List TrigAns) (now : Nat) (ops : List Op),
+      let res := grun cfg (init cfg d t0 now) (Ghost.init cfg arch d) ops
+      ∃ k, retained cfg arch res.2.1.disk = ((res.2.2.closed ++ [res.2.2.cur]).drop k).map List.flatten
+
+/-! ### non-vacuity (tests on samples) -/
+
+/-- fixed window base 0 count 2, size limit 2: three rotations, the oldest file is evicted, the
+read-back is the last records in order -/
+example :
+    let rc : RollerCfg := { nameOf := fun i => 'b' :: List.replicate i 'x', base := 0, count := 2 }
+    let cfg : Cfg Unit := { path := ['a'], appendMode := true, trig := sizeTrigger 2, roll := fixedWindowRoll rc }
+    let res := run cfg (init cfg Disk.empty () 0)
+      [.append [[1, 1, 1]] none, .append [[2, 2, 2]] none, .append [[3, 3, 3]] none, .append [[4]] none]
+    Spec.readBack rc.nameOf 0 2 ['a'] res.2.disk.get? = [2, 2, 2, 3, 3, 3, 4] := by
+  decide +kernel
 
 end Log4rs.Rolling
